@@ -39,6 +39,7 @@ CONSTANTS Threads,      \* thread names (strings)
           MaxOps,       \* calls per thread
           MaxSteps,     \* calls per behaviour
           Pool,         \* number of value ids
+          MaxUpd,       \* metadata-only updates of the bucket (StoreUpdate) per behaviour; 0 = the bucket never changes (and the load is one step)
           SeqPrefix     \* the first SeqPrefix calls run alone, one whole call at a time (>= MaxSteps: the sequential behaviours that are replayed)
 
 Nil     == "nil"
@@ -54,20 +55,29 @@ VARIABLES cmap,      \* rc.cache: key -> value id (0 = absent)
           out,       \* per thread: what the last completed call returned
           cap, maxBytes, store, csize,    \* configuration of this behaviour; store: doc -> content | Missing
           tainted,   \* ghost: keys that received a Put/Upsert whose content is not the bucket's
-          stale,     \* ghost: returned values that differ from the bucket's content for an untainted key
+          stale,     \* ghost: returned values that the bucket does not justify, for an untainted key: [k, c, old]; old = the bucket
+                     \*        did hold c for k earlier (served after its invalidation), ~old = it never held it
+          allowed,   \* ghost: per key, the contents that may still be served: the bucket's content, plus the earlier contents whose
+                     \*        invalidation (the feed-side Remove after a StoreUpdate) has not completed yet
+          okset,     \* ghost: per thread, what the call in progress may return: allowed[k] when it started + every later update
+          fl,        \* ghost: per thread, the call in progress [k, op] (k = Nil: none)
+          ever,      \* ghost: per key, every content the bucket has held
+          pend,      \* ghost: keys whose invalidation is outstanding
+          nupd,      \* ghost: number of StoreUpdates so far
           dev,       \* ghost: named deviations of the code that occurred in this behaviour (see Dev*)
           nops,      \* ghost: calls issued per thread
           hist       \* behaviour (exported for replay; hidden by VIEW)
 
 impl  == <<cmap, lru, val, numItems, total, evLock, pc, th, out>>
 conf  == <<cap, maxBytes, store, csize>>
-ghost == <<tainted, stale, dev, nops>>
+ghost == <<tainted, stale, allowed, okset, fl, ever, pend, nupd, dev, nops>>
 vars  == <<impl, conf, ghost, hist>>
 view  == <<cmap, lru, val, numItems, total, evLock, pc, th, conf, ghost>>     \* out is write-only: not part of the view
 
-FreeVal == [key |-> Nil, c |-> Nil, e |-> FALSE, ms |-> "R", b |-> 0, cb |-> 0, ld |-> 0]
-NewVal(k) == [key |-> k, c |-> Nil, e |-> FALSE, ms |-> "L", b |-> 0, cb |-> 0, ld |-> 0]
-IdleTh == [op |-> "", k |-> Nil, c |-> Nil, f |-> "ok", v |-> 0, res |-> Nil, err |-> FALSE, gd |-> 0, gr |-> 0,
+FreeVal == [key |-> Nil, c |-> Nil, e |-> FALSE, ms |-> "R", b |-> 0, cb |-> 0, ld |-> 0, ldg |-> FALSE]
+NewVal(k) == [key |-> k, c |-> Nil, e |-> FALSE, ms |-> "L", b |-> 0, cb |-> 0, ld |-> 0, ldg |-> FALSE]   \* ldg: value.lock held by a load in progress
+NoFl == [k |-> Nil, op |-> ""]
+IdleTh == [op |-> "", k |-> Nil, c |-> Nil, f |-> "ok", v |-> 0, d |-> Nil, res |-> Nil, err |-> FALSE, gd |-> 0, gr |-> 0,
            need |-> 0, freed |-> 0, nrem |-> 0]
 NoOut  == [op |-> "", k |-> Nil, c |-> Nil, err |-> FALSE, gd |-> 0, gr |-> 0]
 OutOf(r) == [op |-> r.op, k |-> r.k, c |-> r.res, err |-> r.err, gd |-> r.gd, gr |-> r.gr]
@@ -103,21 +113,25 @@ Init ==
   /\ pc = [t \in Threads |-> "idle"] /\ th = [t \in Threads |-> IdleTh] /\ out = [t \in Threads |-> NoOut]
   /\ \E cf \in Configs : cap = cf.cap /\ maxBytes = cf.maxBytes /\ store = cf.store /\ csize = cf.csize
   /\ tainted = {} /\ stale = {} /\ dev = {} /\ nops = [t \in Threads |-> 0]
+  /\ allowed = [k \in Keys |-> {store[DocOf(k)]} \ {Missing}] /\ ever = [k \in Keys |-> {store[DocOf(k)]} \ {Missing}]
+  /\ okset = [t \in Threads |-> {}] /\ fl = [t \in Threads |-> NoFl] /\ pend = {} /\ nupd = 0
   /\ hist = <<>>
 
 FirstPc(op) == CASE op = "Get" -> "getval" [] op = "GetActive" -> "gadoc" [] op = "Put" -> "getval"
                  [] op = "Upsert" -> "upsert" [] op = "Remove" -> "remove" [] op = "Peek" -> "peekget"
+                 [] op = "Inval" -> "remove"       \* the feed-side Remove (DocChanged) after a metadata-only update
 
 ImplStart(t, op, k, c, f) ==
   /\ pc' = [pc EXCEPT ![t] = FirstPc(op)]
   /\ th' = [th EXCEPT ![t] = [IdleTh EXCEPT !.op = op, !.k = k, !.c = c, !.f = f]]
   /\ UNCHANGED <<cmap, lru, val, numItems, total, evLock, out>>
-GhostBegin(op, k, c) ==
-  tainted' = IF op \in {"Put", "Upsert"} /\ c # store[DocOf(k)] THEN tainted \cup {k} ELSE tainted
+GhostBegin(t, op, k, c) ==
+  /\ tainted' = IF op \in {"Put", "Upsert"} /\ c # store[DocOf(k)] THEN tainted \cup {k} ELSE tainted
+  /\ okset' = [okset EXCEPT ![t] = allowed[k]] /\ fl' = [fl EXCEPT ![t] = [k |-> k, op |-> op]]
 
 (* GetActive: bucket read first; an error returns without touching the cache *)
 ImplGaDoc(t) ==
-  LET thr == [th EXCEPT ![t].gd = 1] IN
+  LET thr == [th EXCEPT ![t].gd = 1, ![t].d = store[DocOf(th[t].k)]] IN      \* the document as read now
   IF th[t].f = "fd" \/ store[DocOf(th[t].k)] = Missing
   THEN LET th2 == [thr EXCEPT ![t].err = TRUE] IN
        /\ pc' = FinPc(t, FALSE) /\ out' = FinOut(t, th2, FALSE)
@@ -135,12 +149,16 @@ ImplGetValue(t) ==
               r  == CapEvict(<<id>> \o lru, [cmap EXCEPT ![k] = id], [val EXCEPT ![id] = NewVal(k)], 0, 0) IN
           SetImpl(r.cm, r.l, r.v, numItems + 1 - r.n, total - r.b, [th EXCEPT ![t].v = id])
 
+(* value.load / loadForDoc.  The value lock is held from the check until the result is written; when the bucket can change
+   (MaxUpd > 0) a Get's load is two steps - GetDocument (the document is READ: snapshot th.d) and the rest - so that a
+   StoreUpdate and its invalidation can fall between them.  GetActive loads from the document it read in GaDoc. *)
+Split == MaxUpd > 0
 ImplLoad(t) ==
   LET v == th[t].v
       x == val[v]
-      d == store[DocOf(th[t].k)]
+      d == IF th[t].op = "GetActive" THEN th[t].d ELSE store[DocOf(th[t].k)]
       ga == th[t].op = "GetActive" IN
-  /\ UNCHANGED evLock
+  /\ ~x.ldg /\ UNCHANGED evLock
   /\ IF x.c # Nil \/ x.e
      THEN \* cache hit on the value (body or cached error)
           LET thr == [th EXCEPT ![t].res = IF x.e THEN Nil ELSE x.c, ![t].err = x.e] IN
@@ -152,13 +170,32 @@ ImplLoad(t) ==
               gd1 == th[t].gd + (IF ga THEN 0 ELSE 1)
               revfail == th[t].f = "fr"
               gr1 == IF docfail THEN 0 ELSE 1 IN
-          IF docfail \/ revfail
+          IF docfail
+          THEN /\ pc' = [pc EXCEPT ![t] = "frmmark"] /\ out' = out
+               /\ SetImpl(cmap, lru, [val EXCEPT ![v].e = TRUE, ![v].ld = @ + 1], numItems, total,
+                          [th EXCEPT ![t].err = TRUE, ![t].gd = gd1, ![t].gr = gr1])
+          ELSE IF Split /\ ~ga
+          THEN /\ pc' = [pc EXCEPT ![t] = "loadfin"] /\ out' = out
+               /\ SetImpl(cmap, lru, [val EXCEPT ![v].ldg = TRUE], numItems, total, [th EXCEPT ![t].d = d, ![t].gd = gd1])
+          ELSE IF revfail
           THEN /\ pc' = [pc EXCEPT ![t] = "frmmark"] /\ out' = out
                /\ SetImpl(cmap, lru, [val EXCEPT ![v].e = TRUE, ![v].ld = @ + 1], numItems, total,
                           [th EXCEPT ![t].err = TRUE, ![t].gd = gd1, ![t].gr = gr1])
           ELSE /\ pc' = [pc EXCEPT ![t] = "cas"] /\ out' = out
                /\ SetImpl(cmap, lru, [val EXCEPT ![v].c = d, ![v].b = csize[d], ![v].cb = csize[d], ![v].ld = @ + 1],
                           numItems, total, [th EXCEPT ![t].res = d, ![t].gd = gd1, ![t].gr = gr1])
+
+ImplLoadFin(t) ==      \* second half of a Get's load: getRevision / getCurrentVersion on the document read earlier, write, unlock
+  LET v == th[t].v
+      d == th[t].d IN
+  /\ UNCHANGED <<evLock, out>>
+  /\ IF th[t].f = "fr"
+     THEN /\ pc' = [pc EXCEPT ![t] = "frmmark"]
+          /\ SetImpl(cmap, lru, [val EXCEPT ![v].e = TRUE, ![v].ld = @ + 1, ![v].ldg = FALSE], numItems, total,
+                     [th EXCEPT ![t].err = TRUE, ![t].gr = 1])
+     ELSE /\ pc' = [pc EXCEPT ![t] = "cas"]
+          /\ SetImpl(cmap, lru, [val EXCEPT ![v].c = d, ![v].b = csize[d], ![v].cb = csize[d], ![v].ld = @ + 1, ![v].ldg = FALSE],
+                     numItems, total, [th EXCEPT ![t].res = d, ![t].gr = 1])
 
 ImplCas(t) ==
   LET v == th[t].v IN
@@ -219,6 +256,7 @@ ImplPStore(t) ==
   LET v == th[t].v
       c == th[t].c
       nv == IF val[v].c = Nil THEN [val EXCEPT ![v].c = c, ![v].e = FALSE, ![v].b = csize[c], ![v].cb = csize[c]] ELSE val IN
+  /\ ~val[v].ldg                                  \* value.store takes the value lock
   /\ pc' = FinPc(t, TRUE) /\ out' = FinOut(t, th, TRUE) /\ UNCHANGED evLock
   /\ SetImpl(cmap, lru, nv, numItems, total, FinTh(t, th, TRUE))
 
@@ -279,15 +317,37 @@ ImplMeFin(t) ==
 
 -----------------------------------------------------------------------------
 (* ghosts *)
-IsStale(o) == o.c # Nil /\ o.k \notin tainted /\ o.c # store[DocOf(o.k)]
+IsStale(t, o) == o.c # Nil /\ o.k \notin tainted /\ o.c \notin okset[t]
 GhostEnd(t) ==     \* refers to out' (determined by the Impl action or by the logged return value)
-  stale' = IF IsStale(out'[t]) THEN stale \cup {[k |-> out'[t].k, c |-> out'[t].c]} ELSE stale
-GhostRet(t) == IF pc'[t] = "idle" THEN GhostEnd(t) ELSE UNCHANGED stale
+  LET o == out'[t] IN
+  /\ stale' = IF IsStale(t, o) THEN stale \cup {[k |-> o.k, c |-> o.c, old |-> o.c \in ever[o.k]]} ELSE stale
+  /\ okset' = [okset EXCEPT ![t] = {}] /\ fl' = [fl EXCEPT ![t] = NoFl]
+  /\ IF fl[t].op = "Inval"        \* the invalidation has completed: from now on only the bucket's current content may be served
+     THEN /\ allowed' = [allowed EXCEPT ![fl[t].k] = {store[DocOf(fl[t].k)]} \ {Missing}]
+          /\ pend' = pend \ {fl[t].k}
+     ELSE UNCHANGED <<allowed, pend>>
+GhostRet(t) == IF pc'[t] = "idle" THEN GhostEnd(t) ELSE UNCHANGED <<stale, okset, fl, allowed, pend>>
+
+(* the bucket: a metadata-only update gives document d the content c (same revision id and version, other channels) *)
+GhostStoreUpdate(d, c) ==
+  LET ks == {k \in Keys : DocOf(k) = d} IN
+  /\ allowed' = [k \in Keys |-> IF k \in ks THEN allowed[k] \cup {c} ELSE allowed[k]]
+  /\ ever' = [k \in Keys |-> IF k \in ks THEN ever[k] \cup {c} ELSE ever[k]]
+  /\ okset' = [t \in Threads |-> IF fl[t].k \in ks THEN okset[t] \cup {c} ELSE okset[t]]
+  /\ pend' = pend \cup ks /\ nupd' = nupd + 1
+  \* a writer whose Put/Upsert is in progress hands over what the bucket held when it started: no longer the bucket's content
+  /\ tainted' = tainted \cup {fl[t].k : t \in {u \in Threads : fl[u].k \in ks /\ fl[u].op \in {"Put", "Upsert"}}}
+StoreUpdateTo(d, c) ==
+  /\ store[d] # Missing /\ c # store[d] /\ c # Missing
+  /\ store' = [store EXCEPT ![d] = c] /\ GhostStoreUpdate(d, c)
+  /\ UNCHANGED <<impl, cap, maxBytes, csize, stale, fl, dev, nops>>
 
 (* named deviations of the code from exact accounting (recorded when they happen; see NOTES.md):
    "resize"  itemBytes is overwritten (Put/Upsert SBytes, or a load finishing after a Put sized the value) while
              the value is already accounted (memState Sized) with a different size - later decrements use the new size (F8)
    "dropput" Put/Upsert accounted its revision's bytes but value.store kept the different content the value already had
+   "stalefill" GetActive fills a value from a document it read BEFORE getValue although the invalidation of a later update of
+             that document has already completed: the pre-update content is cached and served until evicted
    "revive"  removeValueForFailedLoad stores memStateRemoved over a value that a concurrent Put has already sized -
              the bytes added by that Put are never subtracted *)
 GhostDev(t) ==
@@ -296,6 +356,8 @@ GhostDev(t) ==
     \cup (IF pc[t] = "frmmark" /\ val[th[t].v].ms = "S" THEN {"revive"} ELSE {})
     \cup (IF pc[t] \in {"add"} /\ val[th[t].v].b # csize[th[t].res] THEN {"resize"} ELSE {})
     \cup (IF pc[t] = "padd" /\ val[th[t].v].b # csize[th[t].c] THEN {"resize"} ELSE {})
+    \cup (IF pc[t] = "load" /\ th[t].op = "GetActive" /\ val[th[t].v].c = Nil /\ ~val[th[t].v].e /\ th[t].f = "ok"
+             /\ cmap[th[t].k] = th[t].v /\ th[t].d \notin allowed[th[t].k] THEN {"stalefill"} ELSE {})
     \cup (IF pc[t] = "pstore" /\ val[th[t].v].c # Nil /\ val[th[t].v].c # th[t].c THEN {"dropput"} ELSE {})
 
 Step(t, op, k, c, f) == hist' = Append(hist, [t |-> t, op |-> op, k |-> k, c |-> c, f |-> f])
@@ -303,17 +365,23 @@ Step(t, op, k, c, f) == hist' = Append(hist, [t |-> t, op |-> op, k |-> k, c |->
 Start(t, op, k, c, f) ==
   /\ pc[t] = "idle" /\ nops[t] < MaxOps /\ Len(hist) < MaxSteps
   /\ Len(hist) <= SeqPrefix => \A u \in Threads : pc[u] = "idle"
-  /\ ImplStart(t, op, k, c, f) /\ GhostBegin(op, k, c)
+  /\ ImplStart(t, op, k, c, f) /\ GhostBegin(t, op, k, c)
   /\ nops' = [nops EXCEPT ![t] = @ + 1] /\ Step(t, op, k, c, f)
-  /\ UNCHANGED <<conf, stale, dev>>
+  /\ UNCHANGED <<conf, stale, dev, allowed, ever, pend, nupd>>
 
-Rest(t) == GhostRet(t) /\ GhostDev(t) /\ UNCHANGED <<conf, tainted, nops, hist>>
+StoreUpdate(d, c) ==
+  /\ nupd < MaxUpd /\ Len(hist) < MaxSteps
+  /\ Len(hist) <= SeqPrefix => \A u \in Threads : pc[u] = "idle"
+  /\ StoreUpdateTo(d, c) /\ Step("env", "StoreUpdate", d, c, store[d])    \* f = the content before the update (to reconstruct the initial bucket)
+
+Rest(t) == GhostRet(t) /\ GhostDev(t) /\ UNCHANGED <<conf, tainted, ever, nupd, nops, hist>>
 
 At(t, p) == pc[t] = p
 Act(t) ==
   \/ At(t, "gadoc")    /\ ImplGaDoc(t) /\ Rest(t)
   \/ At(t, "getval")   /\ ImplGetValue(t) /\ Rest(t)
   \/ At(t, "load")     /\ ImplLoad(t) /\ Rest(t)
+  \/ At(t, "loadfin")  /\ ImplLoadFin(t) /\ Rest(t)
   \/ At(t, "cas")      /\ ImplCas(t) /\ Rest(t)
   \/ At(t, "add")      /\ ImplAdd(t) /\ Rest(t)
   \/ At(t, "frmmark")  /\ ImplFrmMark(t) /\ Rest(t)
@@ -341,8 +409,11 @@ Calls(t) ==
   \/ "Upsert" \in OpSet    /\ \E k \in CvKeys : \E c \in PutContents(k) : Start(t, "Upsert", k, c, "ok")
   \/ "Remove" \in OpSet    /\ \E k \in Keys : Start(t, "Remove", k, Nil, "ok")
   \/ "Peek" \in OpSet      /\ \E k \in Keys : Start(t, "Peek", k, Nil, "ok")
+  \/ "Inval" \in OpSet     /\ \E k \in pend : Start(t, "Inval", k, Nil, "ok")
 
-Next == \E t \in Threads : Calls(t) \/ Act(t)
+Docs == {DocOf(k) : k \in Keys}
+Next == \/ \E t \in Threads : Calls(t) \/ Act(t)
+        \/ \E d \in Docs, c \in Contents : StoreUpdate(d, c)
 Spec == Init /\ [][Next]_vars
 
 -----------------------------------------------------------------------------
@@ -358,9 +429,12 @@ Bounded     == Len(lru) <= cap                                   \* every state 
 ItemsExact  == Quiescent => numItems = Cardinality(Mapped)
 BytesExact  == Quiescent => total = SumCB(lru)              \* gauge = recount of what the cache actually holds
 EmptyIsZero == (Quiescent /\ Mapped = {}) => (numItems = 0 /\ total = 0)
-Fresh       == stale = {}
+Fresh       == \A x \in stale : x.old                 \* nothing is served that the bucket never held for that key
+FreshAfterInvalidate == \A x \in stale : ~x.old         \* once the invalidation of an update has completed, no later call returns the pre-update content
+FreshAfterInvalidateND == "stalefill" \in dev \/ FreshAfterInvalidate
 (* the accounting clauses hold exactly in every behaviour free of the named deviations *)
 NoDev            == dev = {}
+OnlyStalefill    == dev \subseteq {"stalefill"}
 OnlyRevive       == dev \subseteq {"revive"}      \* when writers hand over what the bucket holds, the only deviation left
 BytesExactND     == NoDev => BytesExact
 EmptyIsZeroND    == NoDev => EmptyIsZero
